@@ -5,10 +5,9 @@ P=$1; D=$2; K=$3; TIER=${4:-quick}
 # LANE: several confirmations may run side by side, each lane has its own mutant tree and its own copy of /verif
 L=${LANE:-}; MT=/tmp/lead_mut_tree$L; VC=/root/scratch/verif_mut$L
 cd /repo && { [ -d $MT ] || git worktree add -q --detach $MT HEAD; }
-cd $MT && git checkout -q -- . ; git clean -fdq; git checkout -q --detach main
+cd $MT && git reset -q --hard; git clean -fdq; git checkout -q --detach main
 echo "== demo on clean tree:"; PYTHONPATH=$MT/src /venv/bin/python $D/$K/demo.py > /root/scratch/demo_clean$L.out 2>&1; echo "exit $?"
-git apply $D/$K/patch.diff 2>/dev/null || git apply --3way $D/$K/patch.diff 2>/dev/null || { echo "PATCH DOES NOT APPLY"; exit 3; }
-git reset -q   # a 3-way apply stages the result
+git apply $D/$K/patch.diff || { echo "PATCH DOES NOT APPLY"; git reset -q --hard; exit 3; }
 echo "== baseline with change:"; python3 /verif/tools/baseline_check.py $MT
 echo "== demo with change:"; PYTHONPATH=$MT/src /venv/bin/python $D/$K/demo.py > /root/scratch/demo_mut$L.out 2>&1; echo "exit $?"
 echo "== check $P ($TIER) against the change:"
